@@ -9,9 +9,9 @@ from ..tys import tstr, is_ga, adt_args, pointee, strip_wrappers
 EXPLANATION = (
     "Static analysis of the polymorphic MIR (N symbolic), configs F0+F1. "
     "C02.V: as_slice/as_mut_slice/Deref/DerefMut return (address of self, N). "
-    "C02.G: at every reborrow of a slice-derived raw pointer as a GenericArray reference the dominating guard facts prove "
-    "len == N exactly (extent of the target == extent of the source, offset 0), every LengthError/panic exit is taken only under len != N, "
-    "and the success value is the source pointer itself (no copy). C02.T: reinterpretations of [T; U] / &[T; U] have equal symbolic sizes under the "
+    "C02.G/A/R: each slice-to-array reference conversion (inherent and TryFrom forms) is judged per path on its fully expanded, tree-shaped body: every success exit returns the source's own "
+    "address (no copy) and is reached only with source extent == target extent (len == N exactly), every LengthError/panic exit is taken only under len != N, the fallible forms have no panicking exit, "
+    "and every reborrow of the slice's pointer as an array inside has the exact extent at that point. C02.T: reinterpretations of [T; U] / &[T; U] have equal symbolic sizes under the "
     "where-clause Const<U>: IntoArrayLength<ArrayLength = N>. C02.D: the trait forms (AsRef/AsMut/Borrow/BorrowMut, IntoIterator for &/&mut, TryFrom, From) "
     "delegate to those on the unchanged receiver. C02.P: the 24 tuple conversions keep operand i at position i. C02.M: every returned reference's "
     "region occurs in the input it derives from, with matching mutability. A generic sweep applies the exact-extent rule to any other slice-to-array "
